@@ -61,7 +61,8 @@ import numpy as np
 import common
 
 RULE = ("schedules of props/C09.gen_schedule (ticks of 1/128 s: sampling uniform / irregular / gapped, 2..12 rows, "
-        "0..3 measurement classes with coincident / fractional / clustered / duplicated / out-of-span stamps, "
+        "0..3 stock measurement classes with coincident / fractional / clustered / duplicated / out-of-span stamps, "
+        "in half of the cases a user-defined ONE-ROW Measurement subclass (north velocity / barometric altitude), "
         "time_step from 1/8 of the sampling interval to 5 s) x random enable-masks of the gyro and accelerometer "
         "models (bias, bias walk, noise per axis, scale/misalignment per entry) x initial sigmas log-uniform over "
         "4 decades x measurement sds over 3 decades x lever arms x both altitude modes x nominal = truth / "
@@ -121,6 +122,19 @@ def gen_case(rng, nmax=10):
     while len(s['epochs']) < 2:
         s = S.gen_schedule(rng, 'ff', nmax)
     s['step'] = max(1, min(int(s['step']), 5 * DEN))
+    if rng.random() < 0.5:          # a user-defined one-row measurement next to the stock ones
+        # (the barometric altitude needs the altitude error state: only with altitude)
+        cls = rng.choice(['NorthVelocity', 'BaroAltitude']) if s['alt'] else 'NorthVelocity'
+        ep = s['epochs']
+        pool = sorted({t for _, ts in s['sensors'] for t in ts})
+        ticks = set()
+        for _ in range(rng.randint(1, 4)):
+            ticks.add(rng.choice(pool) if pool and rng.random() < 0.4 else rng.randint(ep[0], ep[-1]))
+        if s['meas_mode'] != 'list':
+            s['sensors'] = []
+            s['meas_mode'] = 'list'
+        s['sensors'].insert(rng.randint(0, len(s['sensors'])), [cls, sorted(ticks)])
+        s['cats'] = s.get('cats', []) + ['custom-1-row:' + cls]
     allow_sm = rng.random() < 0.6
     gm = gen_model_spec(rng, allow_sm)
     am = gen_model_spec(rng, allow_sm)
@@ -159,6 +173,44 @@ def make_model(spec, scale):
     sm = np.array(spec['sm'], float).reshape(3, 3) * scale[3] * np.array([[1.0, 0.5, 0.8], [0.6, 1.1, 0.9], [0.7, 1.2, 1.0]])
     b = b * np.array([1.0, 1.4, 0.8])
     return inertial_sensor.EstimationModel(bias_sd=b, noise=n, bias_walk=w, scale_misal_sd=sm)
+
+
+_CUSTOM = {}
+
+
+def custom_classes():
+    """User-defined measurements (subclasses of pyins.measurements.Measurement, the documented extension point)
+    with ONE row: a single NED velocity component (both altitude modes) and a barometric altitude (needs the
+    altitude error state: not available without altitude).  z = value derived from pva - observed value,
+    H = the matching row of the public error Jacobians, R = sd^2 (1 x 1)."""
+    if not _CUSTOM:
+        from pyins import measurements
+
+        class NorthVelocity(measurements.Measurement):
+            def __init__(self, data, sd):
+                super().__init__(data[['VN']])
+                self.R = np.array([[sd ** 2]])
+
+            def compute_matrices(self, time, pva, error_model):
+                if time not in self.data.index:
+                    return None
+                z = np.array([pva['VN'] - self.data.loc[time, 'VN']])
+                H = error_model.ned_velocity_error_jacobian(pva)[0:1]
+                return z, H, self.R
+
+        class BaroAltitude(measurements.Measurement):
+            def __init__(self, data, sd):
+                super().__init__(data[['alt']])
+                self.R = np.array([[sd ** 2]])
+
+            def compute_matrices(self, time, pva, error_model):
+                if time not in self.data.index or not error_model.with_altitude:
+                    return None
+                z = np.array([pva['alt'] - self.data.loc[time, 'alt']])
+                H = -error_model.position_error_jacobian(pva)[2:3]      # computed altitude = true altitude - down error
+                return z, H, self.R
+        _CUSTOM.update(NorthVelocity=NorthVelocity, BaroAltitude=BaroAltitude)
+    return _CUSTOM
 
 
 def inc_epochs(c):
@@ -205,6 +257,12 @@ def build(c):
             index = pd.Index([_sec(t) for t in ticks], dtype=float, name='time')
             rows = traj.iloc[[min(max(t, 0), hi) for t in ticks]]
             sd = c['msd'][k]
+            if cls in ('NorthVelocity', 'BaroAltitude'):
+                col = 'VN' if cls == 'NorthVelocity' else 'alt'
+                noise = np.random.RandomState(11 + k).randn(len(ticks)) * sd
+                data = pd.DataFrame({col: np.asarray(rows[col], dtype=float) + noise}, index=index)
+                meas.append(custom_classes()[cls](data, sd))
+                continue
             if cls == 'Position':
                 cols = ['lat', 'lon', 'alt']
                 data = sim.generate_position_measurements(rows, sd, 11 + k) if ticks else None
@@ -998,12 +1056,15 @@ def corpus():
         dict(common_, sched=sched(meas_mode='empty', alt=False, increments=True, step=40), gm=full, am=bias,
              msd=[], lever=[], nominal='computed', none_models=False, refine=dict(k=[5, 2, 1, 3], lead=[505, 509])),
         dict(common_, sched=sched(meas_mode='list', increments=True, step=2,
-                                  sensors=[['Position', [530, 560]], ['NedVelocity', []], ['BodyVelocity', [100, 545]]]),
-             gm=bias, am=full, msd=[1.0, 0.3, 0.2], lever=[[0.5, -0.2, 0.3], None, None], nominal='truth',
+                                  sensors=[['Position', [530, 560]], ['NedVelocity', []], ['BodyVelocity', [100, 545]],
+                                           ['BaroAltitude', [512, 547]], ['NorthVelocity', [530, 575]]]),
+             gm=bias, am=full, msd=[1.0, 0.3, 0.2, 0.5, 0.1], lever=[[0.5, -0.2, 0.3], None, None, None, None], nominal='truth',
              none_models=False),
         dict(common_, sched=sched(meas_mode='list', alt=False, increments=False, step=16,
-                                  sensors=[['NedVelocity', [512, 575]], ['Position', [9000 - 1000]]]),
-             gm=bias, am=none, msd=[0.3, 1.0], lever=[[0.1, 0.2, 0.3], None], nominal='computed', none_models=False),
+                                  sensors=[['NedVelocity', [512, 575]], ['Position', [9000 - 1000]],
+                                           ['NorthVelocity', [512, 529, 560]]]),
+             gm=bias, am=none, msd=[0.3, 1.0, 0.2], lever=[[0.1, 0.2, 0.3], None, None], nominal='computed',
+             none_models=False),
     ]
 
 
